@@ -48,10 +48,17 @@ pub struct RingCfg {
     /// only posted when the Ring's thread enters the kernel for events).
     #[serde(default)]
     pub defer_taskrun: bool,
+    /// Config::with_maximum_queue_size(): the largest queues the kernel
+    /// grants (32768 submission entries), sq_log2 is ignored.
+    #[serde(default)]
+    pub max_size: bool,
 }
 
 impl RingCfg {
     pub fn sq_entries(&self) -> u32 {
+        if self.max_size {
+            return 32768;
+        }
         1 << self.sq_log2.min(8)
     }
     pub fn cq_entries(&self) -> u32 {
@@ -62,7 +69,7 @@ impl RingCfg {
         }
     }
     pub fn simple(sq_log2: u8) -> RingCfg {
-        RingCfg { sq_log2, cq_log2: None, sq_start: Start::Zero, cq_start: Start::Zero, sqpoll: false, direct_slots: 0, alt_layout: false, defer_taskrun: false }
+        RingCfg { sq_log2, cq_log2: None, sq_start: Start::Zero, cq_start: Start::Zero, sqpoll: false, direct_slots: 0, alt_layout: false, defer_taskrun: false, max_size: false }
     }
 }
 
@@ -111,8 +118,8 @@ impl World {
         }
         let ring = {
             let _scope = track::scope(track::TAG_A10);
-            let mut config = Ring::config().with_submission_queue_size(cfg.sq_entries());
-            if cfg.cq_log2.is_some() {
+            let mut config = if cfg.max_size { Ring::config().with_maximum_queue_size() } else { Ring::config().with_submission_queue_size(cfg.sq_entries()) };
+            if cfg.cq_log2.is_some() && !cfg.max_size {
                 config = config.with_completion_queue_size(cfg.cq_entries());
             }
             if cfg.sqpoll {
